@@ -50,12 +50,19 @@ def gen_dicttls():
             except OSError: pass
 
 
-GENERATORS = [gen_dicttls]
+def gen_suites():
+    import gen_suites as _gs
+    return _gs.regenerate_suites()
 
 
-def regenerate():
+GENERATORS = [gen_dicttls, gen_suites]
+
+
+def regenerate(only=None):
+    """only: None/True = every generator; a list of names ('dicttls', 'suites', ...) = just those."""
     ok, changed, logs = True, [], []
     for g in GENERATORS:
+        if isinstance(only, (list, tuple)) and g.__name__[4:] not in only: continue
         try:
             o, ch, log = g()
         except Exception as e:  # a crashing generator must fail the check, not the driver
